@@ -167,4 +167,20 @@ theorem jacobianV_ids_subset (c : Constraint α) (v : Nat → α) :
   | isArc a => simp [Constraint.jacobianV, Constraint.nonzeroes, ArcD.vars]
   | midpoint l p => simp [Constraint.jacobianV, Constraint.nonzeroes]
 
+
+/-- The error measure depends only on the slots it reads. -/
+theorem residualV_congr (c : Constraint α) (v w : Nat → α)
+    (h : ∀ i ∈ c.residualReads, v i = w i) : c.residualV v = c.residualV w := by
+  cases c <;>
+    simp only [Constraint.residualReads, List.mem_append, Pt.vars, Seg.vars, Circ.vars, ArcD.vars,
+      List.mem_cons, List.not_mem_nil, or_false] at h <;>
+    simp only [Constraint.residualV, linesAtAngleResidual, distResidual] <;>
+    grind
+
+/-- The error measure is unchanged by changes to variables the constraint does not declare: its
+sensitivity to an undeclared variable is zero. -/
+theorem residualV_undeclared (c : Constraint α) (v w : Nat → α)
+    (h : ∀ i ∈ c.nonzeroes.all, v i = w i) : c.residualV v = c.residualV w :=
+  residualV_congr c v w (fun i hi => h i (residualReads_subset c i hi))
+
 end Ezpz
